@@ -41,12 +41,10 @@ def qbytes_int_mm(activations: torch.Tensor, weights: torch.Tensor, output_scale
     weights = weights.t()
     # torch._int_mm requires contiguous activations
     activations = activations.contiguous()
-    if activations.ndim == 2:
-        out_data = torch._int_mm(activations, weights)
-    else:
-        output_shape = activations.shape[:-1] + (out_features,)
-        out_data = torch._int_mm(activations.view(-1, in_features), weights)
-        out_data = out_data.view(output_shape)
+    output_shape = activations.shape[:-1] + (out_features,)
+    # Always flatten to two dimensions: this also normalizes the strides of dimensions of size one
+    out_data = torch._int_mm(activations.view(-1, in_features), weights)
+    out_data = out_data.view(output_shape)
     # We must evaluate the output as float32 because the multiplication
     # of the int32 data by the scales might overflow
     fp32_output = out_data.to(torch.float32) * output_scales.flatten()
@@ -57,14 +55,13 @@ def qbytes_int8pack_mm(activations: torch.Tensor, weights: torch.Tensor, output_
     # torch._weight_int8pack_mm expects a vector of scales (one per output feature) and contiguous activations
     output_scales = output_scales.flatten().expand(weights.shape[0]).contiguous()
     activations = activations.contiguous()
-    if activations.ndim == 2:
-        return torch._weight_int8pack_mm(activations, weights, output_scales)
-    else:
-        in_features = activations.shape[-1]
-        out_features = weights.shape[0]
-        output_shape = activations.shape[:-1] + (out_features,)
-        out_data = torch._weight_int8pack_mm(activations.view(-1, in_features), weights, output_scales)
-        return out_data.view(output_shape)
+    weights = weights.contiguous()
+    in_features = activations.shape[-1]
+    out_features = weights.shape[0]
+    output_shape = activations.shape[:-1] + (out_features,)
+    # Always flatten to two dimensions: this also normalizes the strides of dimensions of size one
+    out_data = torch._weight_int8pack_mm(activations.view(-1, in_features), weights, output_scales)
+    return out_data.view(output_shape)
 
 
 @torch.library.impl("quanto::qbytes_mm", "default")
